@@ -36,7 +36,9 @@ class InterruptableThread(threading.Thread):
         """
         try:
             self.result = self.func(*self.args, **self.kwargs)
-        except Exception:
+        except BaseException:
+            # SystemExit and friends must reach the caller too, not silently
+            # end this thread
             self.exc_info = sys.exc_info()
 
     @staticmethod
